@@ -10,7 +10,7 @@ open Gen
 theorem C14_marker_negation (seg : Seg) (r : List Nat) (case : CaseMatching) (norm : Normalization) :
     (parseAtom seg (33 :: r) case norm).negative = true ∧
     (parseAtom seg (92 :: 33 :: r) case norm).negative = false := by
-  simp [parseAtom]
+  simp [parseAtom, stripNeg]
 
 /-- `^` = prefix, `'` = substring, `$` suffix = postfix (exact when combined), `!` turns fuzzy into substring -/
 theorem C14_marker_kinds (seg : Seg) (case : CaseMatching) (norm : Normalization) :
@@ -20,7 +20,7 @@ theorem C14_marker_kinds (seg : Seg) (case : CaseMatching) (norm : Normalization
     (parseAtom seg [33, 94, 97] case norm).kind = .prefix ∧ (parseAtom seg [33, 97, 36] case norm).kind = .postfix ∧
     (parseAtom seg [92, 94, 97] case norm).kind = .fuzzy ∧ (parseAtom seg [92, 39, 97] case norm).kind = .fuzzy ∧
     (parseAtom seg [97, 92, 36] case norm).kind = .fuzzy := by
-  simp [parseAtom, endsWith, dropLast1, dropLast2, newInner]
+  simp [parseAtom, stripNeg, stripKind, stripDollar, endsWith, dropLast1, dropLast2, newInner]
 
 /-! ## the escape grammar: splitting and escaped spaces -/
 
@@ -159,5 +159,433 @@ theorem isUpper_ascii (c : Nat) (h : c < 128) : isUpper c = decide (65 ≤ c ∧
   have hb : allUpTo (fun c => isUpper c == decide (65 ≤ c ∧ c ≤ 90)) 128 = true := by decide +kernel
   have := allUpTo_spec hb c h
   simpa using this
+
+
+/-! ## the literal round trip (ASCII text): escaped form ↦ one fuzzy atom carrying the text -/
+
+/-- every whitespace character is preceded by a backslash (`saw`: the character in front of the list is one) -/
+def wsOK : List Nat → Bool → Bool
+  | [], _ => true
+  | c :: cs, saw => (!(isWs c) || saw) && wsOK cs (decide (c = 92))
+
+theorem patternAtomsGo_wsOK : ∀ (s : List Nat) (saw : Bool) (cur : List Nat), wsOK s saw = true →
+    patternAtomsGo s saw cur = [cur.reverse ++ s] := by
+  intro s
+  induction s with
+  | nil => intro saw cur _; simp [patternAtomsGo]
+  | cons c cs ih =>
+    intro saw cur h
+    simp only [wsOK, Bool.and_eq_true, Bool.or_eq_true, Bool.not_eq_true'] at h
+    unfold patternAtomsGo
+    have hc : ¬ (isWs c = true ∧ (!saw) = true) := by
+      intro ⟨hw, hs⟩
+      rcases h.1 with h1 | h1
+      · rw [hw] at h1; cases h1
+      · rw [h1] at hs; cases hs
+    simp only [hc, if_false]
+    rw [ih _ _ h.2]
+    simp
+
+theorem wsOK_noWs : ∀ (b : List Nat) (saw : Bool), (∀ c ∈ b, isWs c = false) → wsOK b saw = true := by
+  intro b
+  induction b with
+  | nil => intro _ _; rfl
+  | cons c cs ih =>
+    intro saw h
+    simp only [wsOK, h c (by simp), Bool.not_false, Bool.true_or, Bool.true_and]
+    exact ih _ (fun d hd => h d (by simp [hd]))
+
+theorem wsOK_append_noWs : ∀ (a b : List Nat) (saw : Bool), (∀ c ∈ b, isWs c = false) → wsOK (a ++ b) saw = wsOK a saw := by
+  intro a
+  induction a with
+  | nil => intro b saw h; simp only [List.nil_append, wsOK]; exact wsOK_noWs b saw h
+  | cons c cs ih => intro b saw h; simp only [List.cons_append, wsOK, ih b _ h]
+
+theorem wsOK_escSpaces : ∀ (u : List Nat) (saw : Bool), (∀ c ∈ u, isWs c = true → c = 32) → wsOK (escSpaces u) saw = true := by
+  intro u
+  induction u with
+  | nil => intro _ _; rfl
+  | cons c cs ih =>
+    intro saw h
+    have ih' := fun s => ih s (fun d hd => h d (by simp [hd]))
+    simp only [escSpaces]
+    split
+    · rename_i hc
+      have h92 : isWs 92 = false := by decide
+      simp [wsOK, ih', h92]
+    · rename_i hc
+      have : isWs c = false := by
+        cases hw : isWs c with
+        | false => rfl
+        | true => exact absurd (h c (by simp) hw) hc
+      simp only [wsOK, this, Bool.not_false, Bool.true_or, Bool.true_and, ih']
+
+theorem getLast?_escSpaces : ∀ (u : List Nat), (escSpaces u).getLast? = u.getLast? := by
+  intro u
+  induction u with
+  | nil => rfl
+  | cons c cs ih =>
+    simp only [escSpaces]
+    split
+    · rename_i hc
+      subst hc
+      cases cs with
+      | nil => simp [escSpaces]
+      | cons d ds =>
+        have : escSpaces (d :: ds) ≠ [] := by simp only [escSpaces]; split <;> simp
+        rw [List.getLast?_cons_cons, List.getLast?_cons_cons] at *
+        cases he : escSpaces (d :: ds) with
+        | nil => exact absurd he this
+        | cons e es =>
+          rw [he] at ih
+          rw [List.getLast?_cons_cons, ih]
+    · cases cs with
+      | nil => simp [escSpaces]
+      | cons d ds =>
+        have : escSpaces (d :: ds) ≠ [] := by simp only [escSpaces]; split <;> simp
+        cases he : escSpaces (d :: ds) with
+        | nil => exact absurd he this
+        | cons e es =>
+          rw [he] at ih
+          rw [List.getLast?_cons_cons, List.getLast?_cons_cons, ih]
+
+theorem endsWith_single (l : List Nat) (x : Nat) : endsWith l [x] = true ↔ l.getLast? = some x := by
+  unfold endsWith
+  induction l with
+  | nil => simp
+  | cons a t ih =>
+    cases t with
+    | nil => simp
+    | cons b t' =>
+      rw [List.getLast?_cons_cons, ← ih]
+      simp only [List.length_cons, List.length_nil, Bool.and_eq_true, decide_eq_true_eq, beq_iff_eq]
+      constructor
+      · intro ⟨_, h⟩
+        refine ⟨by omega, ?_⟩
+        have e : t'.length + 1 + 1 - (0 + 1) = (t'.length + 1 - (0 + 1)) + 1 := by omega
+        rw [e, List.drop_succ_cons] at h
+        exact h
+      · intro ⟨_, h⟩
+        refine ⟨by omega, ?_⟩
+        have e : t'.length + 1 + 1 - (0 + 1) = (t'.length + 1 - (0 + 1)) + 1 := by omega
+        rw [e, List.drop_succ_cons]
+        exact h
+
+theorem endsWith_two_last (l : List Nat) (x y : Nat) (h : endsWith l [x, y] = true) : l.getLast? = some y := by
+  unfold endsWith at h
+  simp only [List.length_cons, List.length_nil, Bool.and_eq_true, decide_eq_true_eq, beq_iff_eq] at h
+  have : l = l.take (l.length - 2) ++ [x, y] := by
+    conv => lhs; rw [← List.take_append_drop (l.length - 2) l]
+    rw [show l.length - (0 + 1 + 1) = l.length - 2 from rfl] at h
+    rw [h.2]
+  rw [this]; simp
+
+theorem endsWith_append (a s : List Nat) : endsWith (a ++ s) s = true := by
+  unfold endsWith
+  simp
+
+/-- the escaped form without the leading marker escape -/
+def bodyOf (t : List Nat) : List Nat :=
+  if t.getLast? = some 36 then escSpaces t.dropLast ++ [92, 36] else escSpaces t
+
+theorem escape_eq (t : List Nat) : escape t = (if (t.head?.map isMarker).getD false then [92] else []) ++ bodyOf t := rfl
+
+theorem strip_plain (body : List Nat) (h1 : body.head? ≠ some 33) (h2 : body.head? ≠ some 94) (h3 : body.head? ≠ some 39)
+    (h4 : ∀ m r, body = 92 :: m :: r → m ≠ 33 ∧ m ≠ 94 ∧ m ≠ 39) :
+    stripNeg body = (false, body) ∧ stripKind body = (.fuzzy, body) := by
+  constructor
+  · unfold stripNeg
+    split
+    · simp at h1
+    · rename_i r; exact absurd rfl (h4 33 r rfl).1
+    · rfl
+  · unfold stripKind
+    split
+    · simp at h2
+    · simp at h3
+    · rename_i r; exact absurd rfl (h4 94 r rfl).2.1
+    · rename_i r; exact absurd rfl (h4 39 r rfl).2.2
+    · rfl
+
+/-- how an escaped text starts -/
+theorem escSpaces_cons (u : List Nat) (x : Nat) (r : List Nat) (h : escSpaces u = x :: r) :
+    (∃ u', u = 32 :: u' ∧ x = 92 ∧ r = 32 :: escSpaces u') ∨ (∃ u', u = x :: u' ∧ x ≠ 32 ∧ r = escSpaces u') := by
+  cases u with
+  | nil => simp [escSpaces] at h
+  | cons c cs =>
+    simp only [escSpaces] at h
+    split at h
+    · rename_i hc
+      left
+      simp only [List.cons.injEq] at h
+      exact ⟨cs, by rw [hc], h.1.symm, h.2.symm⟩
+    · rename_i hc
+      right
+      simp only [List.cons.injEq] at h
+      exact ⟨cs, by rw [h.1], by rw [← h.1]; exact hc, h.2.symm⟩
+
+theorem isMarker_iff (m : Nat) : isMarker m = true ↔ m = 33 ∨ m = 94 ∨ m = 39 := by
+  simp [isMarker, or_assoc]
+
+/-- for an escapable text that does not start with a marker, the escaped body never looks like a marker or an
+    escaped marker -/
+theorem escSpaces_plain (u : List Nat) (hm : (u.head?.map isMarker).getD false = false)
+    (hne : ∀ m r, u = 92 :: m :: r → isMarker m = false) :
+    (∀ x r, escSpaces u = x :: r → isMarker x = false) ∧
+    (∀ m r, escSpaces u = 92 :: m :: r → isMarker m = false) := by
+  constructor
+  · intro x r h
+    rcases escSpaces_cons u x r h with ⟨u', hu, hx, _⟩ | ⟨u', hu, _, _⟩
+    · rw [hx]; decide
+    · rw [hu] at hm; simpa using hm
+  · intro m r h
+    rcases escSpaces_cons u 92 (m :: r) h with ⟨u', hu, _, hr⟩ | ⟨u', hu, _, hr⟩
+    · simp only [List.cons.injEq] at hr; rw [hr.1]; decide
+    · rcases escSpaces_cons u' m r hr.symm with ⟨u'', hu', hx, _⟩ | ⟨u'', hu', _, _⟩
+      · rw [hx]; decide
+      · exact hne m u'' (by rw [hu, hu'])
+
+theorem dropLast_cons_of_ne_nil (c : Nat) (rest : List Nat) (h : rest ≠ []) : (c :: rest).dropLast = c :: rest.dropLast := by
+  cases rest with
+  | nil => exact absurd rfl h
+  | cons d ds => rfl
+
+/-- stages 1 and 2 of `Atom::parse` on an escaped literal: no negation, kind fuzzy, and what is left is the
+    escaped body -/
+theorem stage12 (t : List Nat) (he : Escapable t) :
+    (stripNeg (escape t)).1 = false ∧ stripKind (stripNeg (escape t)).2 = (.fuzzy, bodyOf t) := by
+  rw [escape_eq]
+  cases t with
+  | nil => exact absurd rfl he.nonempty
+  | cons c0 rest =>
+    by_cases hmk : isMarker c0 = true
+    · -- the text starts with a marker: `\` + marker + …
+      have hc32 : c0 ≠ 32 := by intro e; rw [e] at hmk; revert hmk; decide
+      have hc36 : c0 ≠ 36 := by intro e; rw [e] at hmk; revert hmk; decide
+      have hbody : ∃ tail, bodyOf (c0 :: rest) = c0 :: tail := by
+        unfold bodyOf
+        split
+        · rename_i hl
+          have hr : rest ≠ [] := by
+            intro e; subst e; simp at hl; exact hc36 hl
+          rw [dropLast_cons_of_ne_nil c0 rest hr]
+          simp only [escSpaces, hc32, if_false, List.cons_append]
+          exact ⟨_, rfl⟩
+        · simp only [escSpaces, hc32, if_false]
+          exact ⟨_, rfl⟩
+      obtain ⟨tail, hb⟩ := hbody
+      simp only [List.head?_cons, Option.map_some, Option.getD_some, hmk, if_true, hb, List.cons_append, List.nil_append]
+      rcases (isMarker_iff c0).mp hmk with e | e | e <;> subst e <;> simp [stripNeg, stripKind]
+    · have hmk' : isMarker c0 = false := by simpa using hmk
+      simp only [List.head?_cons, Option.map_some, Option.getD_some, hmk', Bool.false_eq_true, if_false, List.nil_append]
+      -- the body never looks like a marker or an escaped marker
+      have plain : (∀ x r, bodyOf (c0 :: rest) = x :: r → isMarker x = false) ∧
+          (∀ m r, bodyOf (c0 :: rest) = 92 :: m :: r → isMarker m = false) := by
+        unfold bodyOf
+        split
+        · rename_i hl
+          cases hr : rest with
+          | nil =>
+            simp only [List.dropLast_singleton, escSpaces, List.nil_append]
+            constructor
+            · intro x r h; simp only [List.cons.injEq] at h; rw [← h.1]; decide
+            · intro m r h; simp only [List.cons.injEq] at h; rw [← h.2.1]; decide
+          | cons d ds =>
+            have hrne : rest ≠ [] := by rw [hr]; simp
+            rw [← hr, dropLast_cons_of_ne_nil c0 rest hrne]
+            have pl := escSpaces_plain (c0 :: rest.dropLast) (by simp [hmk'])
+              (by
+                intro m r h
+                simp only [List.cons.injEq] at h
+                -- rest.dropLast = m :: r, so rest = m :: r ++ [last]
+                have : ∃ r', rest = m :: r' := by
+                  cases rest with
+                  | nil => exact absurd rfl hrne
+                  | cons a as =>
+                    cases as with
+                    | nil => simp at h
+                    | cons b bs =>
+                      simp only [List.dropLast_cons_cons, List.cons.injEq] at h
+                      exact ⟨b :: bs, by rw [h.2.1]⟩
+                obtain ⟨r', hr'⟩ := this
+                exact he.noEscMarker m r' (by rw [h.1, hr']))
+            cases hes : escSpaces (c0 :: rest.dropLast) with
+            | nil => simp only [escSpaces] at hes; split at hes <;> simp at hes
+            | cons x r' =>
+              simp only [List.cons_append]
+              constructor
+              · intro y r h; simp only [List.cons.injEq] at h; rw [← h.1]; exact pl.1 x r' hes
+              · intro m r h
+                simp only [List.cons.injEq] at h
+                cases r' with
+                | nil => simp only [List.nil_append, List.cons.injEq] at h; rw [← h.2.1]; decide
+                | cons m' r'' =>
+                  simp only [List.cons_append, List.cons.injEq] at h
+                  rw [← h.2.1]
+                  exact pl.2 m' r'' (by rw [hes, h.1])
+        · exact escSpaces_plain (c0 :: rest) (by simp [hmk']) he.noEscMarker
+      have hh : ∀ k, isMarker k = true → (bodyOf (c0 :: rest)).head? ≠ some k := by
+        intro k hk e
+        cases hb : bodyOf (c0 :: rest) with
+        | nil => rw [hb] at e; simp at e
+        | cons x r =>
+          rw [hb] at e
+          simp only [List.head?_cons, Option.some.injEq] at e
+          have := plain.1 x r hb
+          rw [e, hk] at this; cases this
+      have sp := strip_plain (bodyOf (c0 :: rest)) (hh 33 (by decide)) (hh 94 (by decide)) (hh 39 (by decide))
+        (by
+          intro m r h
+          have := plain.2 m r h
+          refine ⟨?_, ?_, ?_⟩ <;> (intro e; rw [e] at this; revert this; decide))
+      rw [sp.1]
+      exact ⟨rfl, sp.2⟩
+
+/-- stage 3: the `$` handling -/
+theorem stage3 (t : List Nat) :
+    stripDollar .fuzzy (bodyOf t) =
+      (.fuzzy, decide (t.getLast? = some 36), escSpaces (if t.getLast? = some 36 then t.dropLast else t)) := by
+  unfold bodyOf stripDollar
+  by_cases hl : t.getLast? = some 36
+  · simp only [hl, if_true, endsWith_append, decide_true]
+    simp [dropLast2]
+  · simp only [hl, if_false, decide_false]
+    have h1 : endsWith (escSpaces t) [92, 36] = false := by
+      cases h : endsWith (escSpaces t) [92, 36] with
+      | false => rfl
+      | true => have := endsWith_two_last _ _ _ h; rw [getLast?_escSpaces] at this; exact absurd this hl
+    have h2 : endsWith (escSpaces t) [36] = false := by
+      cases h : endsWith (escSpaces t) [36] with
+      | false => rfl
+      | true => have := (endsWith_single _ _).mp h; rw [getLast?_escSpaces] at this; exact absurd this hl
+    simp [h1, h2]
+
+theorem escSpaces_ascii (u : List Nat) (h : ∀ c ∈ u, c < 128) : ∀ c ∈ escSpaces u, c < 128 := by
+  induction u with
+  | nil => intro c hc; simp [escSpaces] at hc
+  | cons x xs ih =>
+    intro c hc
+    simp only [escSpaces] at hc
+    split at hc
+    · simp only [List.mem_cons] at hc
+      rcases hc with rfl | rfl | hc
+      · omega
+      · omega
+      · exact ih (fun d hd => h d (by simp [hd])) c hc
+    · simp only [List.mem_cons] at hc
+      rcases hc with rfl | hc
+      · exact h c (by simp)
+      · exact ih (fun d hd => h d (by simp [hd])) c hc
+
+/-- on ASCII text, building the atom from the escaped text with escape processing is building it from the text
+    itself without -/
+theorem newInner_escaped_ascii (seg : Seg) (u : List Nat) (hu : ∀ c ∈ u, c < 128) (case : CaseMatching) (norm : Normalization)
+    (kind : AtomKind) (ad : Bool) :
+    newInner seg (escSpaces u) case norm kind true ad = newInner seg u case norm kind false ad := by
+  have h1 : (escSpaces u).all (· < 128) = true := by
+    simp only [List.all_eq_true, decide_eq_true_eq]; exact escSpaces_ascii u hu
+  have h2 : u.all (· < 128) = true := by
+    simp only [List.all_eq_true, decide_eq_true_eq]; exact hu
+  unfold newInner
+  simp only [h1, h2, if_true, replaceEscSpace_escSpaces, Bool.false_eq_true, if_false]
+
+/-- a literal `$` appended by the `\$` escape is the text's own last character -/
+theorem newInner_dollar_ascii (seg : Seg) (u : List Nat) (hu : ∀ c ∈ u, c < 128) (case : CaseMatching) (norm : Normalization)
+    (kind : AtomKind) :
+    newInner seg u case norm kind false true = newInner seg (u ++ [36]) case norm kind false false := by
+  have h1 : (u ++ [36]).all (· < 128) = true := by
+    simp only [List.all_eq_true, decide_eq_true_eq, List.mem_append, List.mem_singleton]
+    rintro c (hc | rfl)
+    · exact hu c hc
+    · omega
+  have h2 : u.all (· < 128) = true := by
+    simp only [List.all_eq_true, decide_eq_true_eq]; exact hu
+  unfold newInner
+  simp only [h1, h2, if_true, Bool.false_eq_true, if_false]
+  cases case <;> simp [asciiLower]
+
+/-- **parsing the escaped form of a literal ASCII text yields exactly one positive fuzzy atom, the atom built
+    from that text itself** (no escape processing, no marker) — for every escapable text (non-empty, its only
+    whitespace is U+0020, not starting with a backslash followed by a marker: such a text has no escaped form),
+    every `CaseMatching` and `Normalization`. -/
+theorem C14_literal_roundtrip_ascii (seg : Seg) (t : List Nat) (he : Escapable t) (hasc : ∀ c ∈ t, c < 128)
+    (case : CaseMatching) (norm : Normalization) :
+    parsePattern seg (escape t) case norm = [newInner seg t case norm .fuzzy false false] := by
+  -- one atom
+  have hsingle : patternAtoms (escape t) = [escape t] := by
+    unfold patternAtoms
+    rw [patternAtomsGo_wsOK]
+    · simp
+    · rw [escape_eq]
+      have hbody : ∀ saw, wsOK (bodyOf t) saw = true := by
+        intro saw
+        unfold bodyOf
+        split
+        · rw [wsOK_append_noWs _ _ _ (by intro c hc; simp only [List.mem_cons] at hc; rcases hc with rfl | rfl | hc <;> first | decide | simp at hc)]
+          exact wsOK_escSpaces _ _ (fun c hc => he.ws c (List.dropLast_subset t hc))
+        · exact wsOK_escSpaces _ _ he.ws
+      split
+      · simp only [List.cons_append, List.nil_append, wsOK, hbody, Bool.and_true]; decide
+      · simp only [List.nil_append, hbody]
+  have h12 := stage12 t he
+  have h3 := stage3 t
+  have hatom : parseAtom seg (escape t) case norm = newInner seg t case norm .fuzzy false false := by
+    unfold parseAtom
+    simp only [h12.1, h12.2, h3, Bool.false_eq_true, false_and, if_false]
+    by_cases hl : t.getLast? = some 36
+    · simp only [hl, if_true, decide_true]
+      have hd : ∀ c ∈ t.dropLast, c < 128 := fun c hc => hasc c (List.dropLast_subset t hc)
+      rw [newInner_escaped_ascii seg _ hd, newInner_dollar_ascii seg _ hd]
+      have : t.dropLast ++ [36] = t := by
+        have h0 := List.dropLast_concat_getLast he.nonempty
+        have h1 : t.getLast he.nonempty = 36 := by
+          have := List.getLast?_eq_some_getLast he.nonempty
+          rw [hl] at this
+          exact (Option.some.inj this).symm
+        rw [h1] at h0; exact h0
+      rw [this]
+      cases hh : newInner seg t case norm .fuzzy false false
+      rename_i neg _ _ _ _ _
+      have : neg = false := by
+        have := congrArg Atom.negative hh
+        unfold newInner at this
+        split at this <;> simpa using this.symm
+      rw [this]
+    · simp only [hl, if_false, decide_false]
+      rw [newInner_escaped_ascii seg _ hasc]
+      cases hh : newInner seg t case norm .fuzzy false false
+      rename_i neg _ _ _ _ _
+      have : neg = false := by
+        have := congrArg Atom.negative hh
+        unfold newInner at this
+        split at this <;> simpa using this.symm
+      rw [this]
+  unfold parsePattern
+  rw [hsingle]
+  simp only [List.map_cons, List.map_nil, hatom]
+  have hne : (newInner seg t case norm .fuzzy false false).needle.isEmpty = false := by
+    have h2 : t.all (· < 128) = true := by
+      simp only [List.all_eq_true, decide_eq_true_eq]; exact hasc
+    unfold newInner
+    simp only [h2, if_true, Bool.false_eq_true, if_false]
+    cases t with
+    | nil => exact absurd rfl he.nonempty
+    | cons c cs => cases case <;> simp
+  simp [hne]
+
+/-- with case respected the needle is the text itself -/
+theorem C14_literal_needle_ascii (seg : Seg) (t : List Nat) (he : Escapable t) (hasc : ∀ c ∈ t, c < 128) (norm : Normalization) :
+    (parsePattern seg (escape t) .respect norm).map (fun a => (a.negative, a.kind, a.needle)) = [(false, .fuzzy, t)] := by
+  rw [C14_literal_roundtrip_ascii seg t he hasc]
+  have h2 : t.all (· < 128) = true := by
+    simp only [List.all_eq_true, decide_eq_true_eq]; exact hasc
+  simp [newInner, h2]
+
+
+/-- the hypotheses are satisfiable and the escaped form is what one expects: `!a $` ↦ `\!a\ \$` ↦ needle `!a $` -/
+example : Escapable [33, 97, 32, 36] ∧ escape [33, 97, 32, 36] = [92, 33, 97, 92, 32, 92, 36] ∧
+    (parsePattern (fun l => l) (escape [33, 97, 32, 36]) .respect .smart).map (fun a => (a.negative, a.kind, a.needle))
+      = [(false, .fuzzy, [33, 97, 32, 36])] := by
+  refine ⟨⟨by decide, by decide, by intro m r h; cases h⟩, by decide, by decide⟩
 
 end NucleoVerif
